@@ -24,6 +24,10 @@ GLOB = "mouette/attributes/glob.py"
 INTERP = "mouette/attributes/interpolate.py"
 
 
+COQ_KEYWORDS = {"by", "at", "in", "as", "fun", "if", "then", "else", "end", "let", "match", "with", "return", "fix", "cofix",
+                "forall", "exists", "Type", "Set", "Prop", "using", "where", "struct", "for", "is", "exists2", "IF", "mod"}
+
+
 class Tr:
     """Expression translator with an environment name -> (type, coq term)."""
 
@@ -92,6 +96,12 @@ class Tr:
             d = T.dotted(e)
             if d in ("math.pi", "np.pi", "pi"):
                 return ("s", "pi")
+            if e.attr in ("x", "y", "z"):
+                b = self.tr(e.value)
+                if b[0] == "w" and e.attr in ("x", "y"):
+                    return ("s", "(%s %s)" % ({"x": "fst", "y": "snd"}[e.attr], b[1]))
+                if b[0] == "v":
+                    return ("s", "(%s %s)" % ({"x": "vx", "y": "vy", "z": "vz"}[e.attr], b[1]))
             self.fail(e, "unsupported attribute %s" % d)
         if isinstance(e, ast.Call):
             return self.call(e)
@@ -111,6 +121,19 @@ class Tr:
             if f is None:
                 self.fail(e, "unsupported vector operator")
             return ("v", "(%s o %s %s)" % (f, a[1], b[1]))
+        if ta == "w" and tb == "w":
+            f = {ast.Add: "wadd", ast.Sub: "wsub"}.get(op)
+            if f is None:
+                self.fail(e, "unsupported 2-vector operator")
+            return ("w", "(%s o %s %s)" % (f, a[1], b[1]))
+        if ta == "w" and tb in ("s", "z"):
+            if op is ast.Div:
+                return ("w", "(wdiv o %s %s)" % (a[1], self.as_s(b, e)))
+            if op is ast.Mult:
+                return ("w", "(wscale o %s %s)" % (self.as_s(b, e), a[1]))
+            self.fail(e, "unsupported 2-vector/scalar operator")
+        if ta in ("s", "z") and tb == "w" and op is ast.Mult:
+            return ("w", "(wscale o %s %s)" % (self.as_s(a, e), b[1]))
         if ta == "v" and tb in ("s", "z"):
             if op is ast.Div:
                 return ("v", "(vdiv o %s %s)" % (a[1], self.as_s(b, e)))
@@ -133,6 +156,10 @@ class Tr:
             if isinstance(sl, ast.Constant) and sl.value in (0, 1, 2):
                 return ("s", "(%s %s)" % (("vx", "vy", "vz")[sl.value], base[1]))
             self.fail(e, "vector index is not 0/1/2")
+        if base[0] == "w":
+            if isinstance(sl, ast.Constant) and sl.value in (0, 1):
+                return ("s", "(%s %s)" % (("fst", "snd")[sl.value], base[1]))
+            self.fail(e, "2-vector index is not 0/1")
         if base[0] == "mat3":
             if (isinstance(sl, ast.Tuple) and len(sl.elts) == 2
                     and all(isinstance(x, ast.Constant) and x.value in (0, 1, 2) for x in sl.elts)):
@@ -164,6 +191,9 @@ class Tr:
             if len(e.args) == 3:
                 cs = [self.as_s(self.tr(a), a) for a in e.args]
                 return ("v", "(%s, %s, %s)" % tuple(cs))
+            if len(e.args) == 2:
+                cs = [self.as_s(self.tr(a), a) for a in e.args]
+                return ("w", "(%s, %s)" % tuple(cs))
             self.fail(e, "Vec(...) with %d arguments" % len(e.args))
         if d == "len" and len(e.args) == 1:
             a = self.tr(e.args[0])
@@ -182,6 +212,13 @@ class Tr:
         if d == "np.array" and len(e.args) == 1 and isinstance(e.args[0], ast.List) and len(e.args[0].elts) == 3:
             rows = [self.need(self.tr(r), "v", r) for r in e.args[0].elts]
             return ("mat3", rows)
+        if d in ("dot", "geom.dot", "np.dot") and len(e.args) == 2 and (self.allowed is None or d in self.allowed):
+            a0, a1 = self.tr(e.args[0]), self.tr(e.args[1])
+            if a0[0] == "w" and a1[0] == "w":
+                return ("s", "(dot2 o %s %s)" % (a0[1], a1[1]))
+        if d == "det_2x2" and len(e.args) == 2 and (self.allowed is None or d in self.allowed):
+            a0, a1 = self.tr(e.args[0]), self.tr(e.args[1])
+            return ("s", "(g_det2 o %s %s)" % (self.need(a0, "w", e), self.need(a1, "w", e)))
         if d in self.FUN and (self.allowed is None or d in self.allowed):
             fn, at, rt = self.FUN[d]
             args = e.args
@@ -238,13 +275,15 @@ class Tr:
             return
         # SSA-rename so that `A = Vec(A)` style rebinding keeps Python's meaning
         k = 0
-        cn = name
+        pyname = name
+        cn = name + "_" if name in COQ_KEYWORDS else name
+        name = cn
         used = {c for (_, c) in self.env.values() if isinstance(c, str)} | {n for n, _ in lets}
         while cn in used or (fresh and cn in used):
             k += 1
             cn = "%s_%d" % (name, k)
         lets.append((cn, tv[1]))
-        self.env[name] = (tv[0], cn)
+        self.env[pyname] = (tv[0], cn)
 
 
 def fn_args(fn):
@@ -264,10 +303,10 @@ def simple_fn(rel, tree, src, name, argtypes, want, parts, coqname, allowed=None
     binders = []
     for a, ty in zip(args, argtypes):
         env[a] = (ty, a)
-        binders.append("(%s : %s)" % (a, {"v": "vec T", "s": "T", "z": "Z"}[ty]))
+        binders.append("(%s : %s)" % (a, {"v": "vec T", "s": "T", "z": "Z", "w": "(T * T)%type"}[ty]))
     tr = Tr(rel, env, allowed)
     body = tr.block(T.body_nodoc(fn), want)
-    rty = {"v": "vec T", "s": "T", "ang": "(T * T)%type", "z": "Z"}[want]
+    rty = {"v": "vec T", "s": "T", "ang": "(T * T)%type", "z": "Z", "w": "(T * T)%type"}[want]
     return "Definition %s %s : %s :=\n    %s.\n" % (coqname, " ".join(binders), rty, body)
 
 
@@ -342,6 +381,97 @@ def gen_geometry(out, parts):
     body = tr.block([b3[1], b[1], b[2]], "s")
     out.append("Definition g_det3 (A B C : vec T) : T :=\n    %s.\n" % body)
 
+
+
+def gen_circumcenter(out, parts):
+    src, tree = T.load(GEOM)
+    # face_basis(*f): the three-point form
+    fn = T.find_def(tree, "face_basis", GEOM)
+    parts.append(("geometry.py:face_basis", T.sha(src, fn)))
+    b = T.body_nodoc(fn)
+    if not (len(b) == 6 and seg_is(src, b[0], "if len(f)==1: f = f[0]") and seg_is(src, b[1], "pA,pB,pC = (x for x in f)")
+            and isinstance(b[5], ast.Return) and seg_is(src, b[5].value, "X,Y,Z")):
+        T.fail(GEOM, fn, "face_basis: unexpected shape")
+    tr = Tr(GEOM, {"pA": ("v", "pA"), "pB": ("v", "pB"), "pC": ("v", "pC")}, {"cross", "Vec.normalized"})
+    lets = []
+    for st in b[2:5]:
+        if not (isinstance(st, ast.Assign) and isinstance(st.targets[0], ast.Name)):
+            T.fail(GEOM, st, "face_basis: expected an assignment")
+        tr.assign(st.targets[0], st.value, lets, st)
+    body = "(%s, %s, %s)" % tuple(tr.env[k][1] for k in ("X", "Y", "Z"))
+    for n, c in reversed(lets):
+        body = "let %s := %s in\n    %s" % (n, c, body)
+    out.append("Definition g_face_basis (pA pB pC : vec T) : vec T * vec T * vec T :=\n    %s.\n" % body)
+    # det_2x2: the array form (neither argument a python complex)
+    fn = T.find_def(tree, "det_2x2", GEOM)
+    parts.append(("geometry.py:det_2x2", T.sha(src, fn)))
+    b = T.body_nodoc(fn)
+    if not (len(b) == 3 and isinstance(b[0], ast.If) and isinstance(b[1], ast.If) and isinstance(b[2], ast.Return)
+            and seg_is(src, b[0].test, "isinstance(A,complex)") and seg_is(src, b[1].test, "isinstance(B,complex)")
+            and len(b[0].orelse) == 1 and seg_is(src, b[0].orelse[0], "ax,ay = A[0], A[1]")
+            and len(b[1].orelse) == 1 and seg_is(src, b[1].orelse[0], "bx,by = B[0], B[1]")):
+        T.fail(GEOM, fn, "det_2x2: unexpected shape")
+    tr = Tr(GEOM, {"A": ("w", "A"), "B": ("w", "B")}, set())
+    body = tr.block([b[0].orelse[0], b[1].orelse[0], b[2]], "s")
+    out.append("Definition g_det2 (A B : (T * T)%%type) : T :=\n    %s.\n" % body)
+    # intersect_2lines2D: guard |det| < eps -> None
+    fn = T.find_def(tree, "intersect_2lines2D", GEOM)
+    parts.append(("geometry.py:intersect_2lines2D", T.sha(src, fn)))
+    b = T.body_nodoc(fn)
+    if not (len(b) == 5 and seg_is(src, b[0], "p1,d1,p2,d2 = (u[:2] for u in (p1,d1,p2,d2))") and isinstance(b[1], ast.If)
+            and len(b[1].body) == 1 and seg_is(src, b[1].body[0], "return None") and not b[1].orelse):
+        T.fail(GEOM, fn, "intersect_2lines2D: unexpected shape")
+    g = b[1].test
+    if not (isinstance(g, ast.Compare) and len(g.ops) == 1 and isinstance(g.ops[0], ast.Lt) and seg_is(src, g.left, "abs(det_2x2(d1,d2))")
+            and isinstance(g.comparators[0], ast.Constant) and isinstance(g.comparators[0].value, float)):
+        T.fail(GEOM, g, "intersect_2lines2D: guard is not `abs(det_2x2(d1,d2)) < <float>`")
+    from fractions import Fraction
+    eps = Fraction(T.seg(src, g.comparators[0]))
+    env = {k: ("w", k) for k in ("p1", "d1", "p2", "d2")}
+    tr = Tr(GEOM, env, {"dot", "det_2x2", "abs"})
+    guard = tr.as_s(tr.tr(g.left), g)
+    body = tr.block(b[2:], "w")
+    out.append("(* None when |det| < %s (the source's literal), i.e. when NOT eps <= |det| *)\n"
+               "Definition g_intersect_2lines2D (p1 d1 p2 d2 : (T * T)%%type) : option (T * T) :=\n"
+               "    if oleb o (odiv o (oZ o %d) (oZ o %d)) %s then Some (\n    %s) else None.\n"
+               % (eps, eps.numerator, eps.denominator, guard, body))
+    # circumcenter
+    fn = T.find_def(tree, "circumcenter", GEOM)
+    parts.append(("geometry.py:circumcenter", T.sha(src, fn)))
+    b = T.body_nodoc(fn)
+    if not (len(b) == 11 and seg_is(src, b[0], "X,Y,Z = face_basis(v1,v2,v3)")
+            and seg_is(src, b[2], "v1,v2,v3 = (Vec(dot(X,v), dot(Y,v)) for v in (v1,v2,v3))")
+            and seg_is(src, b[9], "S = intersect_2lines2D(p1, d1, p2, d2)") and isinstance(b[10], ast.Return)):
+        T.fail(GEOM, fn, "circumcenter: unexpected shape")
+    env = {k: ("v", k) for k in ("v1", "v2", "v3", "X", "Y", "Z")}
+    tr = Tr(GEOM, env, {"dot"})
+    lets = []
+    tr.assign(b[1].targets[0], b[1].value, lets, b[1])            # h = dot(Z, v1)
+    for k in ("v1", "v2", "v3"):                                  # projections into the basis of the triangle
+        tr.bind("q" + k, ("w", "(dot o X %s, dot o Y %s)" % (k, k)), lets)
+    for k in ("v1", "v2", "v3"):
+        tr.env[k] = tr.env["q" + k]
+    for st in b[3:9]:
+        if not (isinstance(st, ast.Assign) and isinstance(st.targets[0], ast.Name)):
+            T.fail(GEOM, st, "circumcenter: expected an assignment")
+        tr.assign(st.targets[0], st.value, lets, st)
+    args = " ".join(tr.env[k][1] for k in ("p1", "d1", "p2", "d2"))
+    tr.env["S"] = ("w", "S_")
+    ret = tr.need(tr.tr(b[10].value), "v", b[10])
+    body = "match g_intersect_2lines2D o %s with\n    | Some S_ => Some %s\n    | None => None\n    end" % (args, ret)
+    for n, c in reversed(lets):
+        body = "let %s := %s in\n    %s" % (n, c, body)
+    out.append("Definition g_circumcenter (v1 v2 v3 : vec T) : option (vec T) :=\n"
+               "    let '(X, Y, Z) := g_face_basis o v1 v2 v3 in\n    %s.\n" % body)
+    # face_circumcenter: loop plumbing
+    srcf, treef = T.load(AF)
+    fn = T.find_def(treef, "face_circumcenter", AF)
+    parts.append(("attr_faces.py:face_circumcenter", T.sha(srcf, fn)))
+    lp = find_for(fn.body, lambda s_: seg_is(srcf, s_.iter, "enumerate(mesh.faces)"), AF, "for iF,F in enumerate(mesh.faces)")
+    if not (len(lp.body) == 2 and isinstance(lp.body[0], ast.If) and seg_is(srcf, lp.body[0].test, "len(F)!=3")
+            and isinstance(lp.body[0].body[0], ast.Raise)
+            and seg_is(srcf, lp.body[1], "circum[iF] = geom.circumcenter(*(mesh.vertices[u] for u in F))")):
+        T.fail(AF, lp, "face_circumcenter: unexpected loop body")
 
 # ------------------------------------------------------------------------------------------------ attributes
 def loop_body_fn(rel, src, loop, env, want_target, allowed, drop_prefix=0):
@@ -982,6 +1112,7 @@ def gen():
     parts = []
     geo, att, itp = [], [], []
     gen_geometry(geo, parts)
+    gen_circumcenter(geo, parts)
     gen_edges(att, parts)
     gen_faces(att, parts)
     gen_corners(att, parts)
